@@ -19,10 +19,11 @@ DPATH=$(grep -oE '(x|app|types)/[A-Za-z0-9_/.-]+_test\.go' $S/demo_path.txt | he
 DDIR=$(dirname "$DPATH")
 demo_clean=unknown; demo_mut=unknown
 if [ -n "$DEMO" ] && [ -n "$DPATH" ]; then
-  cp $DEMO $WT/$DPATH
+  mkdir -p $WT/$DDIR; cp $DEMO $WT/$DPATH
   if (cd $WT && go test -vet=off -count=1 ./$DDIR/ >>$R.log 2>&1); then demo_clean=pass; else demo_clean=FAIL; fi
 fi
 git -C $WT apply $S/patch.diff
+[ -n "$DEMO" ] && [ -n "$DPATH" ] && mkdir -p $WT/$DDIR && cp $DEMO $WT/$DPATH
 build=ok; (cd $WT && go build ./... >>$R.log 2>&1) || build=FAIL
 if [ -n "$DEMO" ] && [ -n "$DPATH" ]; then
   if (cd $WT && go test -vet=off -count=1 ./$DDIR/ >>$R.log 2>&1); then demo_mut=pass; else demo_mut=FAIL; fi
